@@ -36,7 +36,7 @@ func init() {
 		Quick: 5000, Thorough: 500000,
 		Run:        runC08,
 		Rule:       "one run = one generated (type, value, protocol in {binary strict, binary non-strict, compact}) whose encoding E decodes; evaluations = individual faulted decodes: EOF at every offset of E through bytes.Reader and through the simulated reader (both io.ByteReader flavours), a reader error at every offset (all offsets up to 512 bytes, sampled beyond), chunk schedules, 6 byte substitutions per offset, every length / element count set to negative, oversized and out-of-range values, foreign fields of 12 shapes x 4 undeclared ids at every field boundary of every struct level, trailing bytes, each required field removed, each declared top-level field given another wire type, direct Reader method calls on arbitrary bytes. non-trivial = E has at least 2 bytes; distinct = distinct hash of (type, protocol, E)",
-		FaultKinds: []string{"eof-at-offset(bytes.Reader)", "eof-at-offset(simulated reader)", "eof-at-offset(simulated ByteReader)", "reader-error-at-offset", "chunked-delivery", "rot(byte-substitution)", "size-negative", "size-oversized", "size-out-of-range", "foreign-field", "foreign-field-nested-level", "foreign-field-with-corrupted-size", "trailing-bytes", "required-field-removed", "failed-decode-then-decode", "long-lived-decoder", "large-binary(>64KiB)", "nested-required-field-removed", "required-field-removed-while-another-is-repeated", "nested-wire-type-changed(strict)", "wire-type-changed(strict)", "wire-type-changed(non-strict)", "element-type-changed(strict)", "reader-method-on-arbitrary-bytes", "scaling-probe(n vs 8n elements)", "inflated-count-on-a-long-collection", "protocol:binary", "protocol:binary-nonstrict", "protocol:compact", "cut-inside-length", "data+err"},
+		FaultKinds: []string{"eof-at-offset(bytes.Reader)", "eof-at-offset(simulated reader)", "eof-at-offset(simulated ByteReader)", "reader-error-at-offset", "chunked-delivery", "rot(byte-substitution)", "size-negative", "size-oversized", "size-out-of-range", "foreign-field", "foreign-field-nested-level", "foreign-field-with-corrupted-size", "trailing-bytes", "required-field-removed", "failed-decode-then-decode", "long-lived-decoder", "destination-emptied-and-reused", "large-binary(>64KiB)", "nested-required-field-removed", "required-field-removed-while-another-is-repeated", "nested-wire-type-changed(strict)", "wire-type-changed(strict)", "wire-type-changed(non-strict)", "element-type-changed(strict)", "reader-method-on-arbitrary-bytes", "scaling-probe(n vs 8n elements)", "inflated-count-on-a-long-collection", "protocol:binary", "protocol:binary-nonstrict", "protocol:compact", "cut-inside-length", "data+err"},
 		ProbeNames: []string{"messages", "decoder-reset-after-failure", "strict-after-reset-checked", "precondition-failed(skipped)", "struct-levels>1", "E>=128B", "required-fields", "alloc-precise-samples", "eof-k0", "sites", "reference-parse-failed(structural operators skipped)"},
 		Real:       []string{"thrift.Unmarshal, thrift.Decoder (strict and non-strict), binary and compact Readers compiled from /repo's working tree with sync and sync/atomic redirected to the shim (deterministic simulated sync.Pool, pristine library state before every run)"},
 		Model:      []string{"storage/transport medium (fault operators over the encoded bytes)", "io.Reader (simio.Reader with and without io.ByteReader)", "reference thrift parser/serialiser for both protocols (verifsim/ref) used to locate sizes and struct levels and to build foreign fields, removed fields and retyped fields"},
@@ -342,12 +342,8 @@ func thriftIDs(rt reflect.Type) (all map[int]bool, top map[int]bool, required []
 		seen[t] = true
 		switch t.Kind() {
 		case reflect.Struct:
-			for i := 0; i < t.NumField(); i++ {
-				f := t.Field(i)
+			for _, f := range thriftFieldsOf(t) {
 				tag := f.Tag.Get("thrift")
-				if tag == "" {
-					continue
-				}
 				parts := strings.Split(tag, ",")
 				if id, err := strconv.Atoi(parts[0]); err == nil {
 					all[id] = true
@@ -373,6 +369,62 @@ func thriftIDs(rt reflect.Type) (all map[int]bool, top map[int]bool, required []
 	return
 }
 
+// thriftTypeOfGo maps a Go field type to the thrift type of its wire form (scalars,
+// strings and structs only: enough to complete a message with zero values).
+func thriftTypeOfGo(t reflect.Type) (int8, bool) {
+	for t.Kind() == reflect.Ptr {
+		t = t.Elem()
+	}
+	switch t.Kind() {
+	case reflect.Bool:
+		return ref.TFalse, true
+	case reflect.Int8:
+		return ref.TI8, true
+	case reflect.Int16:
+		return ref.TI16, true
+	case reflect.Int32:
+		return ref.TI32, true
+	case reflect.Int, reflect.Int64:
+		return ref.TI64, true
+	case reflect.Float64:
+		return ref.TDouble, true
+	case reflect.String:
+		return ref.TBinary, true
+	case reflect.Struct:
+		return ref.TStruct, true
+	case reflect.Slice:
+		if t.Elem().Kind() == reflect.Uint8 {
+			return ref.TBinary, true
+		}
+	}
+	return 0, false
+}
+
+// thriftFieldsOf lists the tagged fields of a struct type, those promoted from
+// embedded structs (by value or by pointer, exported type name or not) included:
+// an embedded struct is not a level of its own on the wire.
+func thriftFieldsOf(st reflect.Type) []reflect.StructField {
+	var out []reflect.StructField
+	for i := 0; i < st.NumField(); i++ {
+		f := st.Field(i)
+		if f.Anonymous {
+			ft := f.Type
+			for ft.Kind() == reflect.Ptr {
+				ft = ft.Elem()
+			}
+			if ft.Kind() == reflect.Struct {
+				out = append(out, thriftFieldsOf(ft)...)
+				continue
+			}
+		}
+		if f.PkgPath != "" || f.Tag.Get("thrift") == "" {
+			continue
+		}
+		out = append(out, f)
+	}
+	return out
+}
+
 // typedLevel pairs a struct level of a parsed encoding with the Go struct type
 // it is decoded into.
 type typedLevel struct {
@@ -394,10 +446,10 @@ func typedLevels(tv *ref.TVal, rt reflect.Type, out *[]typedLevel, depth int) {
 		}
 		*out = append(*out, typedLevel{tv, rt})
 		byID := map[int]reflect.Type{}
-		for i := 0; i < rt.NumField(); i++ {
-			parts := strings.Split(rt.Field(i).Tag.Get("thrift"), ",")
+		for _, f := range thriftFieldsOf(rt) {
+			parts := strings.Split(f.Tag.Get("thrift"), ",")
 			if id, err := strconv.Atoi(parts[0]); err == nil {
-				byID[id] = rt.Field(i).Type
+				byID[id] = f.Type
 			}
 		}
 		for i := range tv.Fields {
@@ -432,8 +484,8 @@ func typedLevels(tv *ref.TVal, rt reflect.Type, out *[]typedLevel, depth int) {
 // thriftLevelIDs returns the declared and the required field ids of one struct type.
 func thriftLevelIDs(st reflect.Type) (ids, req map[int]bool) {
 	ids, req = map[int]bool{}, map[int]bool{}
-	for i := 0; i < st.NumField(); i++ {
-		parts := strings.Split(st.Field(i).Tag.Get("thrift"), ",")
+	for _, f := range thriftFieldsOf(st) {
+		parts := strings.Split(f.Tag.Get("thrift"), ",")
 		id, err := strconv.Atoi(parts[0])
 		if err != nil {
 			continue
@@ -889,6 +941,35 @@ func runC08(r *core.Run) {
 						}
 					}
 				}
+			}
+		}
+		// H0. the message is completed, from the type's own tags, with every required
+		// top-level field the encoding does not carry (zero value of its thrift type):
+		// what the type declares is decided here, not by the library's field walk
+		{
+			have := map[int]bool{}
+			for _, f := range tree.Fields {
+				have[int(f.ID)] = true
+			}
+			added := false
+			for _, f := range thriftFieldsOf(ty.rt) {
+				parts := strings.Split(f.Tag.Get("thrift"), ",")
+				id, err := strconv.Atoi(parts[0])
+				isReq := false
+				for _, o := range parts[1:] {
+					isReq = isReq || o == "required"
+				}
+				if err != nil || !isReq || have[id] {
+					continue
+				}
+				if tt, ok := thriftTypeOfGo(f.Type); ok {
+					tree.Fields = append(tree.Fields, ref.TField{ID: int16(id), Val: zeroOf(tt)})
+					added = true
+				}
+			}
+			if added {
+				sort.SliceStable(tree.Fields, func(i, j int) bool { return tree.Fields[i].ID < tree.Fields[j].ID })
+				r.Probe("required-fields-completed-from-the-tags")
 			}
 		}
 		// H. each required top-level field removed
@@ -1399,6 +1480,36 @@ func c08LargeBinary(r *core.Run) bool {
 	return true
 }
 
+// emptyForReuse resets a decoded value the way a caller that wants to keep its
+// memory does: slices to length zero, maps cleared, pointers kept, scalars zeroed.
+func emptyForReuse(v reflect.Value, depth int) {
+	if depth > 8 || !v.IsValid() || !v.CanSet() {
+		return
+	}
+	switch v.Kind() {
+	case reflect.Slice:
+		if !v.IsNil() {
+			v.Set(v.Slice(0, 0))
+		}
+	case reflect.Map:
+		if !v.IsNil() {
+			v.Clear()
+		}
+	case reflect.Ptr:
+		if !v.IsNil() {
+			emptyForReuse(v.Elem(), depth+1)
+		}
+	case reflect.Struct:
+		for i := 0; i < v.NumField(); i++ {
+			if v.Type().Field(i).PkgPath == "" {
+				emptyForReuse(v.Field(i), depth+1)
+			}
+		}
+	default:
+		v.Set(reflect.Zero(v.Type()))
+	}
+}
+
 // c08Scaling: a list / map with 8 times as many elements may allocate at most 16
 // times as much (plus slack): linear growth, whatever the constant.
 func c08Scaling(r *core.Run) bool {
@@ -1457,6 +1568,36 @@ func c08Scaling(r *core.Run) bool {
 	}
 	if e1 != nil || e8 != nil {
 		core.Harness("C08 scaling probe input rejected (%s, %s): %v %v", thriftProtoNames[pi], name, e1, e8)
+	}
+	// the destination of the short message, emptied by the caller as the doc comment
+	// of Unmarshal allows (slices cut to length zero, capacity kept; maps cleared),
+	// receives the long one: as into a fresh destination
+	{
+		x, fresh := reflect.New(rt), reflect.New(rt)
+		var err, errFresh error
+		var pan string
+		func() {
+			defer func() {
+				if e := recover(); e != nil {
+					pan = fmt.Sprintf("%v\n%s", e, stackOfLibrary())
+				}
+			}()
+			if err = thrift.Unmarshal(p, small, x.Interface()); err == nil {
+				emptyForReuse(x.Elem(), 0)
+				err = thrift.Unmarshal(p, big, x.Interface())
+			}
+			errFresh = thrift.Unmarshal(p, big, fresh.Interface())
+		}()
+		r.Evaluations += 3
+		r.Fault("destination-emptied-and-reused")
+		if pan != "" {
+			r.Fail("panic", "decode-panic:"+panicSite(pan), "thrift.Unmarshal panicked decoding %d elements of %s into the emptied destination of a %d-element message: %s", 8*n, name, n, pan)
+			return false
+		}
+		if err != nil || errFresh != nil || !reflect.DeepEqual(x.Interface(), fresh.Interface()) {
+			r.Fail("reuse", "emptied-destination-differs", "thrift.Unmarshal of %d elements of %s into the emptied destination of a %d-element message: err=%v (fresh destination: %v) or another value (%s)", 8*n, name, n, err, errFresh, thriftProtoNames[pi])
+			return false
+		}
 	}
 	// a long list / set that really delivers its elements, under a header that
 	// announces far more: must fail, within the bound on the bytes available
